@@ -1131,8 +1131,10 @@ struct DefineDestructor<T, false> : std::integral_constant<bool, true> {};
 
 /// Implementation class with definitions independent from the traits of type T and number of elements
 template <class T, class Alloc, class SizeType, bool WithInlineElements, class GrowingPolicy>
-class VectorImpl : public VectorDestr<T, Alloc, SizeType, WithInlineElements, GrowingPolicy,
-                                      DefineDestructor<T, WithInlineElements>::value> {
+class VectorImpl
+    : public VectorDestr<T, Alloc, SizeType, WithInlineElements, GrowingPolicy,
+                         DefineDestructor<T, WithInlineElements ||
+                                                 !std::is_same<GrowingPolicy, DynamicGrowingPolicy>::value>::value> {
  public:
   using value_type = T;
   using iterator = T *;
@@ -1507,7 +1509,9 @@ class VectorImpl : public VectorDestr<T, Alloc, SizeType, WithInlineElements, Gr
   template <class... Args>
   explicit VectorImpl(Args &&...args) noexcept
       : VectorDestr<T, Alloc, SizeType, WithInlineElements, GrowingPolicy,
-                    DefineDestructor<T, WithInlineElements>::value>(std::forward<Args &&>(args)...) {}
+                    DefineDestructor<T, WithInlineElements ||
+                                            !std::is_same<GrowingPolicy, DynamicGrowingPolicy>::value>::value>(
+            std::forward<Args &&>(args)...) {}
 };
 
 template <class T, class A, class S, bool I, class G>
